@@ -138,14 +138,29 @@ theorem C19_unique_site (t : TSpec) (k : String) :
   uniqueSite_top t k
 
 /-- REM erases the elements equal to the given object (absent: nothing is
-    removed, no error); REM of `None` rewrites the set unchanged. -/
+    removed, no error); REM of `None` removes nothing.  The result is stored at
+    the operation's scope – except that NOTHING is stored when that scope has no
+    entry and nothing was removed (`remStore`). -/
 theorem C19_seq_rem (sp : Spec) (m m' : SMap) (sc : Scope) (name : String) (v : JV)
     (h : apply sp m ⟨.rem, sc, name, v⟩ = .ok m') :
     ∃ s t l, sp.get name = some s ∧ s.ty = .obj t ∧ existValue m name s = .objs l ∧
       ((∃ o, fromPyValue sp t true v = .ok (some o) ∧
-          m' = setValue m name (.objs (l.filter fun x => !x.pyEq o)) sc) ∨
-       (fromPyValue sp t true v = .ok none ∧ m' = setValue m name (.objs l) sc)) :=
+          m' = remStore m name sc l (l.filter fun x => !x.pyEq o)) ∨
+       (fromPyValue sp t true v = .ok none ∧ m' = remStore m name sc l l)) :=
   apply_rem_inv sp m m' sc name v h
+
+/-- **A filtered RESET that removes nothing leaves every effective value
+    unchanged**: whatever layers come before and after this one, `lookup` of
+    every setting gives the same answer with the layer before and after the
+    operation.  (Before fix 9cae9a4 this was false: an empty set was stored and
+    masked the less specific layers.) -/
+theorem C19_seq_rem_noop (sp : Spec) (m m' : SMap) (sc : Scope) (name : String) (v : JV)
+    (h : apply sp m ⟨.rem, sc, name, v⟩ = .ok m')
+    (hnoop : ∀ s t l o, sp.get name = some s → s.ty = .obj t → existValue m name s = .objs l →
+      fromPyValue sp t true v = .ok (some o) → (l.filter fun x => !x.pyEq o) = l)
+    (k : String) (pre post : List SMap) (au : Bool) :
+    lookup sp k (pre ++ m' :: post) au = lookup sp k (pre ++ m :: post) au :=
+  rem_noop_lookup sp m m' sc name v h hnoop k pre post au
 
 /-- `_check_object_set_uniqueness`: success returns its input, pairwise
     unequal, pairwise without two objects agreeing on an exclusive field at its
@@ -160,7 +175,7 @@ theorem C19_seq_unique (l l' : List Obj) (h : checkUnique l = .ok l') :
     the keys unique, and tags the entry with the operation's name and scope. -/
 theorem C19_seq_frame (sp : Spec) (m m' : SMap) (op : Op) (h : apply sp m op = .ok m') :
     (∀ k, k ≠ op.name → m'.get k = m.get k) ∧ (m.WF → m'.WF) ∧
-    (op.code ≠ .reset → ∃ v, m'.get op.name =
+    (op.code = .set ∨ op.code = .add → ∃ v, m'.get op.name =
         some { name := op.name, value := v, source := op.scope.source, scope := op.scope }) :=
   ⟨apply_frame sp m m' op h, apply_WF sp m m' op h, apply_entry sp m m' op h⟩
 
@@ -168,23 +183,6 @@ theorem C19_seq_frame (sp : Spec) (m m' : SMap) (op : Op) (h : apply sp m op = .
 theorem C19_seq_scope (sp : Spec) (st : State) (op : Op) (sc : Scope) (h : sc ≠ op.scope) :
     (step sp st op).1.map sc = st.map sc :=
   step_other_scope sp st op sc h
-
-/-- FALSE of the code: "a filtered RESET that removes nothing leaves the effective
-    value alone".  REM at a scope that has no entry for the setting takes the
-    DEFAULT (empty set) as the current value and stores the (still empty) result at
-    that scope, where it masks the value of the less specific scope.  Witness: one
-    object at INSTANCE, then REM of an absent object at SESSION – the step
-    succeeds, removes nothing, and the effective value drops from one object to
-    none.  Replayed on the real code by the harness
-    (`oracle:rem-noop-changes-effective:*`). -/
-theorem C19_rem_noop_masks_counterexample :
-    let st := run exSpec {} [⟨.add, .instance, "objs", .obj [("database", .str "a"), ("port", .int 1)]⟩]
-    let op : Op := ⟨.rem, .session, "objs", .obj [("database", .str "zzz")]⟩
-    (step exSpec st op).2 = none ∧
-    (effective exSpec st "objs").map (Option.map fun v => match v with | .objs l => l.length | _ => 0)
-      = .ok (some 1) ∧
-    (effective exSpec (step exSpec st op).1 "objs") = .ok (some (.objs [])) := by
-  decide
 
 /-! ### rejection -/
 
@@ -268,6 +266,20 @@ theorem duration_rt (us : Int) :
 /-- `ConfigMemory(str(m)) == m` for every non-negative number of bytes. -/
 theorem memory_rt (n : Nat) : Memory.parseMemory (Memory.memToStr (n : Int)) = some n :=
   Memory.memory_roundtrip n
+
+/-- The constant `to_edgeql` prints for a (non-negative) memory value is the cast
+    of `to_str()`, and that text reads back as the same number of bytes. -/
+theorem memory_edgeql_rt (n : Nat) :
+    constText (.mem n) = .ok ("<cfg::memory>'" ++ String.ofList (Memory.memToStr n) ++ "'") ∧
+    Memory.parseMemory (Memory.memToStr (n : Int)) = some n :=
+  ⟨rfl, Memory.memory_roundtrip n⟩
+
+/-- `Duration(text)` and `Duration.from_iso8601(text)` reject EVERY text without a
+    digit – `''`, `'\n'`, `'PT'`, blanks, … (fix 44d9781; before, the first three
+    were read as 0 µs). -/
+theorem duration_needs_digit (s : List Char) (h : ∀ c ∈ s, Duration.isDigit c = false) :
+    Duration.usFromPgText s = .error .invalid ∧ Duration.fromIso s = .error .invalid :=
+  Duration.noDigit_rejected s h
 
 /-- FALSE for negative values, which `ConfigMemory(int)` (hence
     `coerce_single_value`) accepts: `ConfigMemory(-5)` prints `-5B`, which
@@ -353,12 +365,23 @@ example : ∃ m, apply exSpec [] ⟨.set, .session, "obj", .list [.obj [("databa
 example : apply exSpec [] ⟨.add, .session, "obj", .obj [("database", .str "a"), ("port", .int 1)]⟩
     = .error .typeError := by decide
 
-/-- documented corner: `True` is accepted for an int64 setting (`isinstance(True, int)`) and stored as a bool -/
-example : coerceSingle .int (.bool true) = .ok (.bool true) := rfl
+/-- since fix 7df602b a bool is rejected for an int64 SETTING … -/
+example : coerceSingle .int (.bool true) = .error .configuration := rfl
+/-- … but documented corner: `from_pyvalue` still accepts it for an int FIELD of an object -/
+example : coerceField { name := "port", ty := .sc .int } (.bool true) = .ok (.sc (.bool true)) := rfl
 
-/-- documented corner: `to_edgeql` raises ValueError on any memory value -/
+/-- the former masking witness: one object at INSTANCE, REM of an absent object at
+    SESSION – the step succeeds, stores nothing, the effective value stays -/
+example :
+    let st := run exSpec {} [⟨.add, .instance, "objs", .obj [("database", .str "a"), ("port", .int 1)]⟩]
+    let op : Op := ⟨.rem, .session, "objs", .obj [("database", .str "zzz")]⟩
+    (step exSpec st op).2 = none ∧ (step exSpec st op).1.sess = [] ∧
+    effective exSpec (step exSpec st op).1 "objs" = effective exSpec st "objs" := by
+  decide
+
+/-- since fix a93d1c2 `to_edgeql` prints memory values as a cast of their text -/
 example : ∃ m, apply exSpec [] ⟨.set, .instance, "mem", .str "5MiB"⟩ = .ok m ∧
-    toEdgeQL exSpec m = .error .valueError := by
+    toEdgeQL exSpec m = .ok ["CONFIGURE INSTANCE SET mem := <cfg::memory>'5MiB';"] := by
   refine ⟨_, rfl, ?_⟩
   decide
 
